@@ -105,6 +105,16 @@ func sweepCmd(args []string) {
 			clean++
 		}
 		fmt.Printf("%-64s obl=%3d proved=%3d refuted=%2d unk=%2d rounds=%d cands=%d/%d %dms\n", r.Key, len(r.Obls), p, rf, u, r.Rounds, r.CandsKept, r.Cands, r.SolverMs)
+		if os.Getenv("DEBUGDEC") != "" {
+			for _, o := range r.Obls {
+				if o.Class == "dec" {
+					fmt.Printf("   DEC %s result=%s raw=%s\n", o.Name, o.Result, o.Raw)
+					for i, a := range o.Any {
+						fmt.Printf("      alt%d: %v\n", i, a)
+					}
+				}
+			}
+		}
 		if *verbose {
 			for _, o := range r.Obls {
 				if o.Result != "proved" {
